@@ -238,8 +238,16 @@ where
                 out.count("transitions_skipped_after_hangs");
                 return;
             }
+            let eps_now = c.verif_adapt_state().2.to64();
             let Some((c2, ev)) = step_wd::<T, B>(c, 60) else {
                 HANGS.fetch_add(1, std::sync::atomic::Ordering::SeqCst);
+                // the library has no tree-depth cap: with a *tiny injected* step size a legitimate transition on a
+                // heavy-tailed or flat target can need 2^25 and more leapfrogs — that is this harness's own stress input,
+                // not a hang of the library; only a transition at an ordinary step size counts
+                if extreme.is_some() && eps_now < 0.05 {
+                    out.count("transition_cut_long_with_injected_small_step");
+                    return;
+                }
                 out.fail(&format!("{id}.{k}"), "C03:transition-hang", "a NUTS transition did not finish within 60 s", (dim * n_steps) as u64,
                     format!("{} {} dim {dim} seed {seed} step {k}", T::NAME, target.spec::<T>()));
                 return;
